@@ -39,6 +39,9 @@ pub enum Op {
     /// get, keep the guard across a yield, then (still holding it) ask the cache for max_cost():
     /// a client may call into the policy while it holds a shard guard
     GetMaxCost { k: u64 },
+    /// get_mut(k), and with the guard alive insert `n` fresh keys (1001.., cost 1, other shards),
+    /// then release the guard: a client may write other keys while it holds a guard
+    MutHoldIns { k: u64, n: u64 },
     Clear,
     Wait,
     MaxCost { m: i64 },
@@ -92,6 +95,7 @@ impl Op {
             Op::GetHold { k, ms } => format!("H({},{}ms)", k, ms),
             Op::GetYield { k } => format!("Y({})", k),
             Op::GetMaxCost { k } => format!("Q({})", k),
+            Op::MutHoldIns { k, n } => format!("B({},{})", k, n),
             Op::Clear => "X".into(),
             Op::Wait => "W".into(),
             Op::MaxCost { m } => format!("U({})", m),
@@ -105,7 +109,7 @@ impl Op {
     }
     pub fn key(&self) -> Option<u64> {
         match self {
-            Op::Ins { k, .. } | Op::Pres { k, .. } | Op::Rem { k } | Op::Get { k } | Op::Mut { k } | Op::Ttl { k } | Op::GetHold { k, .. } | Op::GetYield { k } | Op::GetMaxCost { k } => Some(*k),
+            Op::Ins { k, .. } | Op::Pres { k, .. } | Op::Rem { k } | Op::Get { k } | Op::Mut { k } | Op::Ttl { k } | Op::GetHold { k, .. } | Op::GetYield { k } | Op::GetMaxCost { k } | Op::MutHoldIns { k, .. } => Some(*k),
             _ => None,
         }
     }
@@ -726,6 +730,32 @@ impl H {
                 Res::Val(g.map(|r| (*r.value(), Some(ttl_ns(r.ttl())))))
             }
         }
+    }
+    /// get_mut(k); while the guard is alive insert keys 1001..1001+n (cost 1); release; answers
+    /// how many of the inserts returned true
+    pub fn mut_hold_ins(&self, k: u64, n: u64, seq: u32) -> Res {
+        let mut ok = 0i64;
+        match self {
+            H::S(x) => {
+                let g = x.get_mut(&k);
+                for i in 0..n {
+                    if x.insert(1001 + i, Val { key: 1001 + i, seq }, 1) {
+                        ok += 1;
+                    }
+                }
+                drop(g);
+            }
+            H::A(x) => {
+                let g = b(x.get_mut(&k));
+                for i in 0..n {
+                    if b(x.insert(1001 + i, Val { key: 1001 + i, seq }, 1)) {
+                        ok += 1;
+                    }
+                }
+                drop(g);
+            }
+        }
+        Res::Int(ok)
     }
     /// get, yield with the guard alive, call max_cost() (policy lock) still holding it, release
     pub fn get_max_cost(&self, k: u64) -> Res {
